@@ -24,7 +24,9 @@ Parts (every one a complete enumeration of a stated finite space, simplest first
            boundary sets below x {48K,128K,+2} x {.z80,.szx}; in the thorough tier every
            T-state value of both frame lengths
   snapmod  every single option and every ordered pair of options from the option
-           alphabet (--reg/--state/--poke/--move/--patch) x input kinds
+           alphabet (--reg/--state/--poke/--move/--patch) x input kinds; as single options
+           on 128K inputs also the complete RAM bank dimension: --poke and --patch in every
+           bank 0..7, --move for every source bank 0..7 x destination bank {omitted, 0..7}
   bin2sna  the same for --reg/--state/--poke (and -b/-p/-s) x {48K, --page, 128K file}
            x {.z80,.szx}, as a differential against the option-less run
 """
@@ -403,11 +405,15 @@ class Model:
         src, size, dest = spec.split(',')
         sp, src = self._page(src)
         dp, dest = self._page(dest)
+        explicit = dp is not None
         if dp is None:
             dp = sp
         src, size, dest = num(src), num(size), num(dest)
         if sp is not None:
             self.notes.add('move_page')
+            self.notes.add('move_dest_bank_explicit' if explicit else 'move_dest_bank_omitted')
+            if sp != dp:
+                self.notes.add('move_cross_bank')
         if abs(src - dest) < size and sp == dp:
             self.notes.add('move_overlap')
         data = []
@@ -464,8 +470,24 @@ _REG_NAMES = ('a', 'f', 'b', 'c', 'bc', 'd', 'e', 'de', 'h', 'l', 'hl', '^a', '^
 _REG_PAIR_SUBSET = ('a', 'f', 'b', 'c', 'bc', '^c', '^bc', 'hl', 'ix', 'iy', 'sp', 'pc', 'i', 'r', 'memptr')
 
 
-def letters(tool, is128, v1=False, reduced=False):
-    """The option alphabet: list of (kind, value)."""
+def bank_letters(tool):
+    """The complete RAM bank dimension of the bank-prefixed specs (128K snapshots): a poke
+    and a patch in every bank 0..7 and a move for every (source bank, destination bank)
+    with the destination bank 0..7 or omitted (= the source bank): 8 + 8 + 72 specs.  All
+    operands lie inside the formula-filled windows of tool_ram, where every bank differs."""
+    out = [('poke', '{}:7176-7178,+{}'.format(p, p + 1)) for p in range(8)]
+    if tool == 'snapmod':
+        for s in range(8):
+            for d in (None,) + tuple(range(8)):
+                dest = 7184 + 8 * s
+                out.append(('move', '{}:{},8,{}'.format(s, 32 + s, dest if d is None else '{}:{}'.format(d, dest))))
+        out += [('patch', '{}:{},{}'.format(p, 7200 + p, PATCH)) for p in range(8)]
+    return out
+
+
+def letters(tool, is128, v1=False, reduced=False, banks=False):
+    """The option alphabet: list of (kind, value).  banks: with the complete bank dimension
+    (bank_letters) appended; used for the single options on 128K inputs."""
     out = []
     for k, n in enumerate(_REG_NAMES):
         if reduced and n not in _REG_PAIR_SUBSET:
@@ -499,6 +521,8 @@ def letters(tool, is128, v1=False, reduced=False):
             out += [('patch', '6:0,' + PATCH), ('patch', '3:49152,' + PATCH), ('patch', '1:16379,' + PATCH)]
     else:
         out += [('border', '3'), ('stack', '40000'), ('start', '0x9c41')]
+    if banks and is128:
+        out += bank_letters(tool)
     return out
 
 
@@ -520,7 +544,7 @@ def option_cases(tier, seed):
             yield tool, kind, []
         for kind in allkinds:
             is128 = kind[1] != '48K' if tool == 'snapmod' else kind[0] != '48K'
-            for a in letters(tool, is128, v1=kind[0] == 'z80v1'):
+            for a in letters(tool, is128, v1=kind[0] == 'z80v1', banks=True):
                 yield tool, kind, [a]
         for ki, kind in enumerate(kinds):
             if quick and tool == 'bin2sna' and (ki + seed) % 2:
@@ -1176,6 +1200,7 @@ REQUIRED_GUARDS = [
     'input_uncompressed_z80v1', 'input_uncompressed_z80v2', 'input_uncompressed_z80v3', 'input_uncompressed_szx',
     'machine_plus2', 'r_bit7', 't_quarter0', 't_quarter1', 't_quarter2', 't_quarter3',
     'poke_set', 'poke_xor', 'poke_add', 'poke_step', 'poke_page', 'poke_rom', 'move_page', 'move_overlap', 'patch_page',
+    'move_dest_bank_explicit', 'move_dest_bank_omitted', 'move_cross_bank',
     'pair_order_dependent', 'szx_only_field_on_z80',
 ]
 
@@ -1190,7 +1215,9 @@ def run(tier, seed):
              'files (Z80 v3 by write_snapshot, Z80 v1 and v2 by snapmod, SZX); (edrun) ED runs of every length 1..600; (run) runs of '
              '{} byte values x lengths {} bare / ED before / ED after / both; (image) 13 whole-memory fills x 3 machines x all file '
              'forms; (state) all deviations d<=2 from a base state over register and hardware-state boundary sets x {{48K,128K,+2}} x {{z80,szx}}{}; (snapmod, bin2sna) every single option and '
-             'every ordered pair from the option alphabet x input kinds. states = distinct case classes (string / run / set of '
+             'every ordered pair from the option alphabet x input kinds, and as single options on every 128K/+2 input kind the complete '
+             'RAM bank dimension: a banked --poke (and, snapmod, --patch) in every bank 0..7 and a banked --move for every source '
+             'bank 0..7 x destination bank in {{omitted, 0..7}} (72 specs). states = distinct case classes (string / run / set of '
              'deviating dimensions per machine / option-kind sequence per input kind); non-trivial = string contains ED, any run, '
              'any deviation, any option'.format(
                  9 if quick else 10, 6 if quick else 7, len(RUN_VALUES_QUICK) if quick else 255, list(RUN_LENGTHS),
